@@ -10,6 +10,7 @@ BUILD = os.path.join(VERIF, '.build')
 IMPL_BIN = os.environ.get('VERIF_IMPL_BIN') or os.path.join(BUILD, 'cargo', 'debug', 'masscanned')   # override: coverage-instrumented build (harness/coverage.sh)
 IMPL_BIN_REL = os.path.join(BUILD, 'cargo', 'release', 'masscanned')
 MDRIVER = os.path.join(VERIF, 'lean', '.lake', 'build', 'bin', 'mdriver')
+TIMESHIM = os.path.join(BUILD, 'timeshim.so')
 
 MAC_ME = bytes.fromhex('c0ffeec0ffee')
 MAC_CL = bytes.fromhex('020000000001')
@@ -224,6 +225,8 @@ def render(op, side):
         return 'K %s %s %d %d' % (ipf(op[1]), ipf(op[2]), op[3], op[4])
     if k == 'P':
         return 'P %d' % op[1]
+    if k == 'Z':
+        return 'Z %d' % op[1]
     if k == 'E':
         assert side == 'model'
         return 'E %s %d' % (hx(op[1]), op[2])
@@ -278,7 +281,10 @@ def parse_blocks(text):
 
 def run_impl(ops, release=False):
     lines = [render(o, 'impl') for o in ops]
-    text, rc, err = run_driver([IMPL_BIN_REL if release else IMPL_BIN], lines, env={'MASSCANNED_VERIF': '1'}, timeout=impl_timeout(len(lines)))
+    env = {'MASSCANNED_VERIF': '1'}
+    if os.path.exists(TIMESHIM):
+        env['LD_PRELOAD'] = TIMESHIM       # `Z <seconds>` ops: every clock the implementation reads is shifted (harness/timeshim.c)
+    text, rc, err = run_driver([IMPL_BIN_REL if release else IMPL_BIN], lines, env=env, timeout=impl_timeout(len(lines)))
     blocks, partial = parse_blocks(text)
     return blocks, rc, err, partial
 
